@@ -201,6 +201,10 @@ class Policy(object):
         self.allow_offset_cmp = False   # difference-bound worlds (min_version table)
         self.allow_int_literals = {0}   # literals an I token may be compared with
         self.notes = []
+        # witness mode: integer tokens are their representatives (any comparison between them or with a literal is
+        # admitted). Used only to look for a concrete counterexample after an abstraction turned out not to apply:
+        # a mismatch found this way is genuine, the absence of one proves nothing.
+        self.witness = False
 
     def int_cmp(self, interp, a, b, op="Cmp"):
         """Return (x, y) concrete representatives for comparing a and b, or raise."""
@@ -208,6 +212,8 @@ class Policy(object):
         for t in (a, b):
             if isinstance(t, Tok) and t.extra and t.extra.get("eq_only") and op not in ("Eq", "Ne"):
                 raise Inconclusive("order comparison %s on equality-only token %r" % (op, t), interp.where())
+        if self.witness and all((not isinstance(t, Tok)) or t.kind == "I" for t in (a, b)):
+            return (a.val + a.off if ta else a), (b.val + b.off if tb else b)
         if ta and tb:
             if a.kind != b.kind:
                 raise Inconclusive("comparison of tokens of different kinds %r %r" % (a, b), interp.where())
@@ -288,6 +294,7 @@ class Interp(object):
         self.stack = []          # (key, bb, span) of active frames
         self.branches = []       # (key, bb, taken) for every SwitchInt executed
         self.calls = []          # keys of crate bodies entered
+        self.stubbed = set()     # crate bodies whose call was answered by an override / parser stub instead
         self.ret_span = {}       # key -> span of the last write to _0 of that function
         self.events = []         # analysis specific (models append)
         self.obligations = []    # e.g. overflow sites met
@@ -654,6 +661,7 @@ class Interp(object):
         key = res["def"] if res else info["def"]
         ov = self.overrides.get(key)
         if ov is not None:
+            self.stubbed.add(key)
             return ov(self, args, info)
         if "ctor" in info:
             return Adt(info["ctor"]["adt"], info["ctor"]["variant"], args)
@@ -674,6 +682,7 @@ class Interp(object):
         """call a crate body by key, honouring the overrides of the analysis"""
         ov = self.overrides.get(key)
         if ov is not None:
+            self.stubbed.add(key)
             return ov(self, args, {"def": key, "local": True})
         return self.call_body(key, args)
 
